@@ -644,9 +644,6 @@ fn create_ask(cx: &Ctx, id: &str, base: &str, quote: &str, price: &str, size: u1
         ("id".into(), AttrExp::Exact(id.to_string())),
         ("price".into(), AttrExp::Exact(price.to_string())),
         ("size".into(), AttrExp::Exact(size.to_string())),
-        ("base".into(), AttrExp::Exact(base.to_string())),
-        ("quote".into(), AttrExp::Exact(quote.to_string())),
-        ("class".into(), AttrExp::Exact(class_json(&class))),
     ];
     e.tags.push(if class == AskClass::Plain { "plain" } else { "convertible" });
     Expect::Accept {
@@ -783,9 +780,6 @@ fn create_bid(
         ("id".into(), AttrExp::Exact(id.to_string())),
         ("price".into(), AttrExp::Exact(price.to_string())),
         ("size".into(), AttrExp::Exact(size.to_string())),
-        ("quote_size".into(), AttrExp::Exact(quote_size.to_string())),
-        ("quote".into(), AttrExp::Exact(quote.to_string())),
-        ("base".into(), AttrExp::Exact(base.to_string())),
     ];
     e.bid_fee = f;
     if cfg.bid_fee.is_some() {
@@ -800,7 +794,12 @@ fn create_bid(
 fn approve_ask(cx: &Ctx, id: &str, base: &str, size: u128) -> Expect {
     let cfg = cx.cfg;
     if id_class(id) != IdClass::Canonical {
-        return refuse("id_not_canonical");
+        // an order carried over under a legacy id can only leave the book (C06); whether it can
+        // be approved is not stated
+        if cx.book.asks.contains_key(id) {
+            return dont("legacy_id_not_approvable");
+        }
+        return refuse("no_such_ask");
     }
     if base.is_empty() {
         return refuse("empty_field");
@@ -850,7 +849,6 @@ fn approve_ask(cx: &Ctx, id: &str, base: &str, size: u128) -> Expect {
         ("id".into(), AttrExp::Exact(id.to_string())),
         ("price".into(), AttrExp::Exact(ask.price.clone())),
         ("size".into(), AttrExp::Exact(ask.size.to_string())),
-        ("class".into(), AttrExp::Exact(class_json(&a2.class))),
     ];
     e.asks.push((id.to_string(), Some(a2)));
     Expect::Accept {
@@ -860,15 +858,15 @@ fn approve_ask(cx: &Ctx, id: &str, base: &str, size: u128) -> Expect {
 }
 
 fn cancel_ask(cx: &Ctx, id: &str) -> Expect {
-    if !cx.funds_empty() {
-        return refuse("funds_attached");
-    }
     let ask = match cx.book.asks.get(id) {
         Some(a) => a,
         None => return refuse("no_such_ask"),
     };
     if ask.owner != cx.sender {
         return refuse("not_owner");
+    }
+    if !cx.funds_empty() {
+        return dont("funds_attached_to_reversal");
     }
     if id_class(id) == IdClass::NotUuid {
         return dont("non_uuid_key_on_book");
@@ -900,9 +898,6 @@ fn cancel_ask(cx: &Ctx, id: &str) -> Expect {
 
 fn reverse_ask(cx: &Ctx, id: &str, size: Option<Option<u128>>, action: &'static str) -> Expect {
     let cfg = cx.cfg;
-    if !cx.funds_empty() {
-        return refuse("funds_attached");
-    }
     if !cfg.executors.iter().any(|a| a == cx.sender) {
         return refuse("not_executor");
     }
@@ -910,6 +905,9 @@ fn reverse_ask(cx: &Ctx, id: &str, size: Option<Option<u128>>, action: &'static 
         Some(a) => a,
         None => return refuse("no_such_ask"),
     };
+    if !cx.funds_empty() {
+        return dont("funds_attached_to_reversal");
+    }
     if id_class(id) == IdClass::NotUuid {
         return dont("non_uuid_key_on_book");
     }
@@ -976,9 +974,6 @@ fn reverse_ask(cx: &Ctx, id: &str, size: Option<Option<u128>>, action: &'static 
 
 fn reverse_bid(cx: &Ctx, id: &str, size: Option<Option<u128>>, action: &'static str) -> Expect {
     let cfg = cx.cfg;
-    if !cx.funds_empty() {
-        return refuse("funds_attached");
-    }
     let bid = match cx.book.bids.get(id) {
         Some(b) => b,
         None => return refuse("no_such_bid"),
@@ -989,6 +984,9 @@ fn reverse_bid(cx: &Ctx, id: &str, size: Option<Option<u128>>, action: &'static 
         }
     } else if !cfg.executors.iter().any(|a| a == cx.sender) {
         return refuse("not_executor");
+    }
+    if !cx.funds_empty() {
+        return dont("funds_attached_to_reversal");
     }
     if id_class(id) == IdClass::NotUuid {
         return dont("non_uuid_key_on_book");
@@ -1098,9 +1096,6 @@ fn reverse_bid(cx: &Ctx, id: &str, size: Option<Option<u128>>, action: &'static 
 
 fn execute_match(cx: &Ctx, ask_id: &str, bid_id: &str, price: &str, size: u128) -> Expect {
     let cfg = cx.cfg;
-    if id_class(ask_id) != IdClass::Canonical || id_class(bid_id) != IdClass::Canonical {
-        return refuse("id_not_canonical");
-    }
     if price.is_empty() {
         return refuse("empty_field");
     }
@@ -1110,9 +1105,6 @@ fn execute_match(cx: &Ctx, ask_id: &str, bid_id: &str, price: &str, size: u128) 
     if !cfg.executors.iter().any(|a| a == cx.sender) {
         return refuse("not_executor");
     }
-    if !cx.funds_empty() {
-        return refuse("funds_attached");
-    }
     let ask = match cx.book.asks.get(ask_id) {
         Some(a) => a,
         None => return refuse("no_such_ask"),
@@ -1121,6 +1113,14 @@ fn execute_match(cx: &Ctx, ask_id: &str, bid_id: &str, price: &str, size: u128) 
         Some(b) => b,
         None => return refuse("no_such_bid"),
     };
+    if id_class(ask_id) != IdClass::Canonical || id_class(bid_id) != IdClass::Canonical {
+        // orders carried over under legacy ids are only promised an exit (C06), not a match
+        return dont("legacy_id_not_matchable");
+    }
+    if !cx.funds_empty() {
+        // no statement says what happens to funds attached to a match; solvency (C01) still applies
+        return dont("funds_attached_to_match");
+    }
     if bid.v2 {
         return dont("old_format_bid");
     }
